@@ -5,7 +5,7 @@
 # Stores patch, demo and the confirmation log under /verif/seeded/<ID>/.
 ID=$1; shift
 EXTRA="$@"
-W=/tmp/seed_$ID
+W=${WORKTREE:-/tmp/seed_$ID}
 OUT=/verif/seeded/${OUTNAME:-$ID}
 mkdir -p $OUT
 export CARGO_NET_OFFLINE=true
